@@ -100,9 +100,15 @@ def compare_trace(ctx, spec, m, net, label):
         stock_now = genfw.snapshot_stock(m, ti)
         # ---- flows
         first = None
+        # magnitude of what passes through each junction (scale for comparing junction outflows: in - sum(out) cancels)
+        jin = {}
+        for l2, irow2 in enumerate(impl_fl):
+            d2 = net["dst"][l2]
+            if kinds[d2] in "jr":
+                jin[d2] = jin.get(d2, 0.0) + sum(abs(v) for v in irow2 if math.isfinite(v))
         for l, (mrow, irow) in enumerate(zip(mfl, impl_fl)):
             s = net["src"][l]
-            scale = max(1.0, sum(abs(v) for v in stock_now[s]))
+            scale = max(1.0, sum(abs(v) for v in stock_now[s]), jin.get(s, 0.0))
             if net["tlink"][l]:
                 pairs = list(zip(mrow, irow)) if len(mrow) == len(irow) else None
                 if pairs is None:
